@@ -242,19 +242,20 @@ theorem accepted_unbindFS (s : Str) (h : AcceptedFS s) : (unbindFS s).isSome = t
     | cons a w => rw [hs]; simp [fsHead, Gen.Cpe.cpe23Prefix, List.isPrefixOf]
   obtain ⟨w, hw⟩ : ∃ w : WFN, w = comps.map unbindFSAttr ++
       List.replicate (Gen.Cpe.numAttr - comps.length) unsetValue := ⟨_, rfl⟩
-  have h1 : w.all (fun a => validate a.v) = true := by
+  have h1 : w.all attrOk = true := by
     rw [hw]
     simp only [List.all_append, List.all_map, Bool.and_eq_true, List.all_eq_true]
     refine ⟨?_, ?_⟩
     · intro c hc
       simp only [Function.comp]
+      apply attrOk_unbindFSAttr
       rcases hval c hc with hl | hv
       · rw [unbindFSAttr_logical c hl]; exact validate_nil
       · by_cases hl : logicalComp c
         · rw [unbindFSAttr_logical c hl]; exact validate_nil
         · rw [unbindFSAttr_set c hl]; exact hv
     · intro a ha
-      rw [List.eq_of_mem_replicate ha]; exact validate_nil
+      rw [List.eq_of_mem_replicate ha]; rfl
   have h2 : w.all (fun a => a.kind == Kind.unset) = false := by
     rw [hw]
     simp only [List.all_append, List.all_map, Bool.and_eq_false_iff]
